@@ -235,7 +235,7 @@ def scoped_specs(st):
         for _ in range(draw(st.integers(2, 3))):
             scopes.append({"level": "local",
                            "shadows": draw(st.lists(st.sampled_from(SC_GLOBALS), max_size=1)),
-                           "defs": draw(st.lists(defn, min_size=2, max_size=3))})
+                           "defs": draw(st.lists(defn, min_size=2, max_size=2))})
         return {"scopes": scopes}
 
     return spec()
@@ -509,6 +509,15 @@ def warm_imports():
 
         from vlib import runner  # noqa: F401
 
+        # two interpreter-level (not guppylang) caches that make a forked session cheaper without changing
+        # what it computes: inspect's module-by-file table (otherwise rebuilt by the first decorator call of
+        # every session) and a frozen GC generation (fewer copy-on-write faults in the children)
+        import gc
+        import inspect
+
+        inspect.getmodule(sys._getframe())
+        gc.collect()
+        gc.freeze()
         _WARM[0] = True
 
 
@@ -729,7 +738,7 @@ def worker(ctx):
             i = draw(st.integers(0, len(h)))
             h[i:i] = [[o1, d], [o2, d]]
         # definitions of the scoped section (local Python scopes, nested functions) in between ...
-        for _ in range(draw(st.integers(0, 4))):
+        for _ in range(draw(st.integers(0, 3))):
             h.insert(draw(st.integers(0, len(h))), [draw(st.sampled_from(OPS)), draw(st.sampled_from(sc_defs))])
         # ... and two of them that are related by a bare name (one holds a recursive nested function
         # called N, the other one uses a global called N), in this order, anywhere in the history
@@ -743,7 +752,13 @@ def worker(ctx):
 
     found = {}
 
+    done = set()
+
     def body_fn(h):
+        key = json.dumps(h)
+        if key in done:   # (every chunk of a Hypothesis run starts with the same simplest history)
+            return
+        done.add(key)
         r = judge_history(pool, h, refs, scoped)
         named = [s for s in h if s[0] != "redefine"]
         sc_steps = [s[1] for s in named if s[1] in sc_defs]
